@@ -300,8 +300,29 @@ def tag_int(t):
     return e
 
 
+def as_map(R, v):
+    """The finite map behind a dict-like value (MapV, or a UserDict record through its `data`)."""
+    if isinstance(v, MapV):
+        return v
+    if isinstance(v, ObjV) and isinstance(v.fields.get('data'), MapV):
+        return v.fields['data']
+    if isinstance(v, ZV) and isinstance(v.kind, str) and v.kind in R.S.records:
+        r = R.S.records[v.kind]
+        if any(f == 'data' for f, _ in r.fields):
+            R.S.record_sort(v.kind)
+            return R.wrap(r.acc['data'](v.e), r.field_kind('data'))
+    return None
+
+
 def contains(R, x, c):
     """Python `x in c`."""
+    if isinstance(c, OptV):
+        if not R.total_access and R.choose(c.isnone):
+            raise PyRaise('TypeError', 'argument of type NoneType is not iterable')
+        c = c.val
+    m = as_map(R, c)
+    if m is not None:
+        return R.map_has(m, x)
     if is_set(c):
         return z3.IsMember(R.z(x, c.kind[1]), c.e)
     if is_seq(c):
@@ -309,7 +330,7 @@ def contains(R, x, c):
             raise OutOfReach('`in` on seq of %r without structural __eq__' % (c.kind[1],))
         return z3.Contains(c.e, z3.Unit(R.z(x, c.kind[1])))
     if isinstance(c, MapV):
-        return z3.Select(c.dom, R.z(x, c.kkind))
+        return R.map_has(c, x)
     if isinstance(c, DictV):
         if c.memo is not None or isinstance(x, (IdV, TupleV)):
             return z3.Bool(R.fresh_name('in_memo'))
@@ -388,11 +409,12 @@ def index(R, v, idx):
                 return v.items[idx]
             raise PyRaise('KeyError')
         raise OutOfReach('dict index with symbolic key')
+    if not isinstance(v, MapV) and as_map(R, v) is not None:
+        v = as_map(R, v)
     if isinstance(v, MapV):
-        k = R.z(idx, v.kkind)
-        if not R.total_access and not R.choose(z3.Select(v.dom, k)):
+        if not R.total_access and not R.choose(R.map_has(v, idx)):
             raise PyRaise('KeyError')
-        return R.wrap(z3.Select(v.val, k), v.vkind)
+        return R.map_get(v, idx)
     items = R.concrete_items(v)
     if items is not None and isinstance(idx, int):
         try:
@@ -457,6 +479,8 @@ def slice_(R, v, lo, hi):
 
 def setitem(R, obj, idx, v):
     """obj[idx] = v. Returns a new value for immutable containers (caller rebinds), else None."""
+    if isinstance(obj, ObjV) and isinstance(obj.fields.get('data'), MapV):
+        obj = obj.fields['data']
     if isinstance(obj, DictV):
         if isinstance(idx, (IdV, TupleV)) or obj.memo is not None:
             memo_store(R, obj, idx, v)
@@ -466,9 +490,7 @@ def setitem(R, obj, idx, v):
             return None
         raise OutOfReach('dict store with symbolic key')
     if isinstance(obj, MapV):
-        k = R.z(idx, obj.kkind)
-        obj.dom = z3.Store(obj.dom, k, z3.BoolVal(True))
-        obj.val = z3.Store(obj.val, k, R.z(v, obj.vkind))
+        R.map_set(obj, idx, v)
         return None
     if isinstance(obj, ListV) and isinstance(idx, int):
         try:
@@ -566,7 +588,7 @@ def builtin_attr(R, v, attr):
             return BoundV(v, BuiltinV('dict.get', dget))
     if isinstance(v, MapV):
         if attr == 'keys':
-            return BoundV(v, BuiltinV('map.keys', lambda R, a, k: ZV(a[0].dom, ('set', a[0].kkind))))
+            return BoundV(v, BuiltinV('map.keys', lambda R, a, k: R.map_keys(a[0])))
     if isinstance(v, Fraction):
         if attr in ('numerator', 'denominator'):
             return getattr(v, attr)
@@ -991,7 +1013,7 @@ def _b_copy(R, a, k):
         d.items = dict(v.items)
         return d
     if isinstance(v, MapV):
-        return MapV(v.dom, v.val, v.kkind, v.vkind)
+        return MapV(v.arr, v.kkind, v.vkind)
     if isinstance(v, ObjV):
         m = R.find_method(v.cls, '__copy__')
         if m is not None:
@@ -1116,6 +1138,22 @@ def _b_member(R, a, k):
     return ZV(z3.IsMember(R.z(a[0], s.kind[1]), s.e), 'bool')
 
 
+def _b_seq_map(R, a, k):
+    """seq_map(f, xs, *extras) == [f(x, *extras) for x in xs] for a spec function f."""
+    f = a[0]
+    if not isinstance(f, SpecFnV):
+        raise OutOfReach('seq_map needs a spec function')
+    mf = R.w.map_fn(f.name)
+    return R.call_spec(mf, list(a[1:]))
+
+
+def _b_mk_tconst(R, a, k):
+    """mk_tconst(name, args) == TConst(name, *args) for a symbolic argument sequence."""
+    adt = R.S.adts['Type']
+    c = adt.ctor('TConst')
+    return ZV(c.con(R.z(a[0], 'str'), R.z(a[1], ('seq', 'Type'))), 'Type')
+
+
 def _b_empty_set(R, a, k):
     ek = a[0] if a else 'Term'
     return ZV(z3.EmptySet(R.S.sort_of(ek)), ('set', ek))
@@ -1142,6 +1180,7 @@ BUILTINS = {
     'as_set': mk('as_set', _b_as_set), 'set_remove': mk('set_remove', _b_set_remove),
     'set_union': mk('set_union', _b_set_union), 'subset': mk('subset', _b_subset),
     'member': mk('member', _b_member), 'empty_set': mk('empty_set', _b_empty_set),
+    'seq_map': mk('seq_map', _b_seq_map), 'mk_tconst': mk('mk_tconst', _b_mk_tconst),
 }
 
 EXTERNALS = {
